@@ -113,13 +113,80 @@ example : OrderPreserving (fun k => 2 * k + 1) [3, 0, 3, 7] := by
 example : sortKeys ([3, 0, 3, 7].map fun k => 2 * k + 1) = (sortKeys [3, 0, 3, 7]).map fun k => 2 * k + 1 := by
   decide
 
+/-! ### duplicate freeness -/
+
+theorem nodup_insertKey {x : Nat} :
+    ∀ {l : List Nat}, x ∉ l → l.Nodup → (insertKey x l).Nodup
+  | [], _, _ => by simp [insertKey]
+  | y :: rest, hx, hl => by
+    have hxy : x ≠ y := fun c => hx (c ▸ List.mem_cons_self ..)
+    have hxr : x ∉ rest := fun c => hx (List.mem_cons_of_mem _ c)
+    have hyr : y ∉ rest := (List.nodup_cons.mp hl).1
+    have hr : rest.Nodup := (List.nodup_cons.mp hl).2
+    unfold insertKey
+    by_cases h : x ≤ y
+    · simp only [h, if_true]
+      exact List.nodup_cons.mpr ⟨hx, hl⟩
+    · simp only [h, if_false]
+      refine List.nodup_cons.mpr ⟨?_, nodup_insertKey hxr hr⟩
+      intro c
+      rcases mem_insertKey.mp c with c | c
+      · exact hxy c.symm
+      · exact hyr c
+
+theorem nodup_sortKeys : ∀ {l : List Nat}, l.Nodup → (sortKeys l).Nodup
+  | [], _ => by simp [sortKeys]
+  | x :: rest, h => by
+    have hx : x ∉ rest := (List.nodup_cons.mp h).1
+    have hr : rest.Nodup := (List.nodup_cons.mp h).2
+    exact nodup_insertKey (fun c => hx (mem_sortKeys.mp c)) (nodup_sortKeys hr)
+
+theorem nodup_map_of_injOn (f : Nat → Nat) :
+    ∀ {l : List Nat}, l.Nodup → (∀ a ∈ l, ∀ b ∈ l, f a = f b → a = b) → (l.map f).Nodup
+  | [], _, _ => by simp
+  | x :: rest, h, hinj => by
+    have hx : x ∉ rest := (List.nodup_cons.mp h).1
+    have hr : rest.Nodup := (List.nodup_cons.mp h).2
+    rw [List.map_cons]
+    refine List.nodup_cons.mpr ⟨?_, nodup_map_of_injOn f hr ?_⟩
+    · intro c
+      obtain ⟨z, hz, hfz⟩ := List.mem_map.mp c
+      have : z = x := hinj z (List.mem_cons_of_mem _ hz) x (List.mem_cons_self ..) hfz
+      exact hx (this ▸ hz)
+    · intro a ha b hb hab
+      exact hinj a (List.mem_cons_of_mem _ ha) b (List.mem_cons_of_mem _ hb) hab
+
+theorem injOn_of_orderPreserving {f : Nat → Nat} {P : List Nat} (h : OrderPreserving f P) :
+    ∀ a ∈ P, ∀ b ∈ P, f a = f b → a = b := by
+  intro a ha b hb hab
+  rcases Nat.lt_trichotomy a b with hlt | heq | hgt
+  · exact absurd hab (Nat.ne_of_lt (h a ha b hb hlt))
+  · exact heq
+  · exact absurd hab.symm (Nat.ne_of_lt (h b hb a ha hgt))
+
+theorem dedupAdjacent_of_nodup : ∀ {l : List Nat}, l.Nodup → dedupAdjacent l = l
+  | [], _ => rfl
+  | [_], _ => rfl
+  | x :: y :: rest, h => by
+    have hxy : x ≠ y := fun c => (List.nodup_cons.mp h).1 (c ▸ List.mem_cons_self ..)
+    have hb : (x == y) = false := by simpa using hxy
+    have ih := dedupAdjacent_of_nodup (List.nodup_cons.mp h).2
+    simp only [dedupAdjacent, hb, Bool.false_eq_true, if_false, ih]
+
+/-- with distinct child keys and a strictly order-preserving substitution, collecting the
+transformed keys in a set loses nothing -/
+theorem dedupAdjacent_sortKeys_map (f : Nat → Nat) (P : List Nat)
+    (hop : OrderPreserving f P) (hnd : P.Nodup) :
+    dedupAdjacent (sortKeys (P.map f)) = (sortKeys P).map f := by
+  rw [dedupAdjacent_of_nodup
+    (nodup_sortKeys (nodup_map_of_injOn f hnd (injOn_of_orderPreserving hop)))]
+  exact sortKeys_map_of_orderPreserving f P hop
+
 /-! ### the runtime's composition -/
 
-/-- `Nodup` is not needed: `indexOf?` returns the FIRST position, and any position of `σ` in the
-child's sorted list is a position of `f σ` in the sorted transformed list. -/
-theorem selectedKey_of_orderPreserving' (parentPaths : List Nat) (f : Nat → Nat)
+theorem selectedKey_of_orderPreserving (parentPaths : List Nat) (f : Nat → Nat)
     (childPaths : List Nat) (σ : Nat) (hσ : σ ∈ childPaths)
-    (hop : OrderPreserving f childPaths)
+    (hop : OrderPreserving f childPaths) (hnd : childPaths.Nodup)
     (hsub : ∀ k ∈ childPaths, f k ∈ parentPaths) :
     selectedKey parentPaths f childPaths σ = some (f σ) := by
   obtain ⟨i, hi⟩ := indexOf?_of_mem (mem_sortKeys.mpr hσ)
@@ -128,18 +195,10 @@ theorem selectedKey_of_orderPreserving' (parentPaths : List Nat) (f : Nat → Na
   have hgj : (sortKeys parentPaths)[j]? = some (f σ) := getElem?_of_indexOf? hj
   have hused : (usedRefetchQueries parentPaths f childPaths)[i]? = some (some j) := by
     unfold usedRefetchQueries
-    rw [sortKeys_map_of_orderPreserving f childPaths hop]
+    rw [dedupAdjacent_sortKeys_map f childPaths hop hnd]
     simp [List.getElem?_map, hgi, hj]
   unfold selectedKey childIndex
   simp only [hi, hused, hgj]
-
-theorem selectedKey_of_orderPreserving (parentPaths : List Nat) (f : Nat → Nat)
-    (childPaths : List Nat) (σ : Nat) (hσ : σ ∈ childPaths)
-    (hop : OrderPreserving f childPaths) (hnd : childPaths.Nodup)
-    (hsub : ∀ k ∈ childPaths, f k ∈ parentPaths) :
-    selectedKey parentPaths f childPaths σ = some (f σ) :=
-  have _ := hnd
-  selectedKey_of_orderPreserving' parentPaths f childPaths σ hσ hop hsub
 
 /-- the hypotheses are satisfiable on a non-trivial input -/
 example : OrderPreserving (fun k => k + 5) [0, 1, 2] := by
@@ -169,5 +228,22 @@ theorem witness_not_orderPreserving : ¬ OrderPreserving (fun k => 1 - k) [0, 1]
   intro h
   have := h 0 (by simp) 1 (by simp) (by decide)
   simp at this
+
+/-! ### witness: keys that MERGE under the substitution
+
+The child has two keys, both become `5`; the parent hands down ONE index; the child's index `1` is
+out of range. -/
+
+theorem selectedKey_witness_merge : selectedKey [5] (fun _ => 5) [0, 1] 1 = none := by decide
+
+theorem witness_merge_not_orderPreserving : ¬ OrderPreserving (fun _ => 5) [0, 1] := by
+  intro h
+  have := h 0 (by simp) 1 (by simp) (by decide)
+  simp at this
+
+/-- `Nodup` is genuinely needed: a (weakly) order-preserving substitution on a child list with a
+repeated key shifts the indices after the set collection -/
+example : OrderPreserving (fun k => k) [0, 0, 1] ∧ selectedKey [0, 1] (fun k => k) [0, 0, 1] 1 ≠ some 1 := by
+  refine ⟨fun a _ b _ hab => hab, by decide⟩
 
 end IsoVerif.Ops.Book
